@@ -641,6 +641,13 @@ class DynamicBayesianNetwork(DAG):
                 if all(x[1] == parents[0][1] for x in parents):
                     if parents:
                         evidence_card = cpd.cardinality[1:]
+                        # The columns follow the parent order of the source CPD, which need
+                        # not be the order in which the graph lists the parents.
+                        shifted_parents = [
+                            DynamicNode(var[0], temp_var[1]) for var in cpd.variables[1:]
+                        ]
+                        if set(shifted_parents) == set(parents):
+                            parents = shifted_parents
                         new_cpd = TabularCPD(
                             temp_var,
                             cpd.variable_card,
@@ -658,13 +665,13 @@ class DynamicBayesianNetwork(DAG):
                             new_cpd = TabularCPD(
                                 temp_var,
                                 cpd.variable_card,
-                                np.reshape(initial_cpd.values, (2, -1)),
+                                np.reshape(initial_cpd.values, (cpd.variable_card, -1)),
                             )
                         else:
                             new_cpd = TabularCPD(
                                 temp_var,
                                 cpd.variable_card,
-                                np.reshape(cpd.values, (2, -1)),
+                                np.reshape(cpd.values, (cpd.variable_card, -1)),
                             )
                     self.add_cpds(new_cpd)
             self.check_model()
